@@ -90,9 +90,9 @@ def gen_attrs(rng, w, rich=True):
     return attrs
 
 
-DECOYS = ['<!-- <b> -->', '<![CDATA[ <i></i> ]]>', '<?php echo "<u>"; ?>', 'text ', 'a < b', '\n  ', '<!---->', '<!-- a -- b > -->',
+DECOYS = ['\u0130stanbul ', '<!-- \u0130 <i> -->', '<!-- <b> -->', '<![CDATA[ <i></i> ]]>', '<?php echo "<u>"; ?>', 'text ', 'a < b', '\n  ', '<!---->', '<!-- a -- b > -->',
           '<![CDATA[]]>', '<? x="?>" ?>', '<?php echo "?> <br/>"; ?>', '<? a="?><i>" ?>', "<?x '?></p><b>' ?>", '<?php $a = "<?"; ?>', '<![CDATA[ ]] > <q> ]]>', '1 > 0', '&lt;p&gt;', 'x </ y', '<!-- </div> -->', '< div>', '<>']
-SPECIAL_BODIES = ['', 'var a = "<div>"; if (a < b) {}', '</div><p>', '<!-- x -->', 'a{color:red} b>c{}', '<script>', '</scrip>', "'</p>'", '<br>']
+SPECIAL_BODIES = ['alert("\u0130ptal")', '/* \u0130\u0130 \u1e9e \ufb01 */ a{}', 'x = "\u0130<b>\u0130"', '', 'var a = "<div>"; if (a < b) {}', '</div><p>', '<!-- x -->', 'a{color:red} b>c{}', '<script>', '</scrip>', "'</p>'", '<br>']
 
 
 def gen_elem(rng, depth, w, recs, parent, xml, max_depth=4, max_children=3):
